@@ -76,8 +76,9 @@ func c08Mutate(r *Rng, src []byte, toks []c08Tok, exprs [][2]int) ([]byte, strin
 	n := 1 + r.Intn(3)
 	var eds []c08Edit
 	var kinds []string
+	kind0 := Pick(r, c08MutKinds) // one mutation kind per mutant (1-3 edits of that kind)
 	for k := 0; k < n; k++ {
-		kind := Pick(r, c08MutKinds)
+		kind := kind0
 		i := r.Intn(len(toks))
 		t := toks[i]
 		gapStart := 0
@@ -157,7 +158,7 @@ func c08Mutate(r *Rng, src []byte, toks []c08Tok, exprs [][2]int) ([]byte, strin
 	if len(eds) == 0 {
 		return nil, ""
 	}
-	return applyEdits(src, eds), strings.Join(kinds, "+")
+	return applyEdits(src, eds), kinds[0]
 }
 
 // c08ExprRanges: source ranges of expressions in operand / value positions.
